@@ -213,6 +213,7 @@ func (vc *VC) run() {
 	vc.computeOrdinals(fn)
 	vc.parseGhostStmts()
 	st := vc.newState()
+	vc.holdsAtEntry(st)
 	fr := &Frame{fn: fn, vals: map[ssa.Value]Val{}, locals: map[*localCell]Val{}, names: map[string]Val{}, curLoopDec: map[int]Term{}}
 	st.fr = fr
 	// parameters
@@ -234,6 +235,12 @@ func (vc *VC) run() {
 		v := st.freshVal("fv."+fv.Name(), fv.Type())
 		fr.vals[fv] = v
 		fr.names[fv.Name()] = v
+		if tv, ok := v.(TV); ok {
+			if vc.fvCells == nil {
+				vc.fvCells = map[string]string{}
+			}
+			vc.fvCells[tv.T.S] = fv.Name()
+		}
 		if tv, ok := v.(TV); ok && isRefLike(fv.Type()) {
 			st.assumeAllocated(tv.T)
 			if _, isPtr := types.Unalias(fv.Type()).Underlying().(*types.Pointer); isPtr {
@@ -351,7 +358,8 @@ func (st *State) enter(b *ssa.BasicBlock, pred *ssa.BasicBlock) {
 			}
 		}
 		invs := vc.loopClauses(lkey, li.ord, "loop-invariant")
-		if len(invs) == 0 {
+		if len(invs) == 0 && vc.mode != "B1" {
+			// B1 decides lock discipline from the held-lock set alone: a loop is cut with the trivial invariant there
 			fail("loop %s#%d has no invariant", lkey, li.ord)
 		}
 		lname := fmt.Sprintf("loop%d", li.ord)
@@ -658,6 +666,16 @@ func (st *State) doReturn(in *ssa.Return) {
 	vc.retPaths++
 	vc.feasLines = append(vc.feasLines, st.lines)
 	vc.runGhost(st, "at return", "", 0, TupleV{res})
+	if vc.mode == "B1" {
+		// locks acquired by the function are released on every return path (locks the caller holds, "#*#", stay)
+		var left []string
+		for _, k := range sortedKeys(st.held) {
+			if !strings.Contains(k, "#*#") {
+				left = append(left, k)
+			}
+		}
+		st.oblige("guard", "no-lock-held-at-return", tBool(len(left) == 0), "locks still held at return: "+strings.Join(left, ","))
+	}
 	if vc.fc == nil {
 		return
 	}
@@ -667,9 +685,6 @@ func (st *State) doReturn(in *ssa.Return) {
 			names["result"] = r
 		}
 		names[fmt.Sprintf("result%d", i)] = r
-	}
-	if len(st.held) > 0 && vc.mode == "B1" {
-		st.oblige("guard", "no-lock-held-at-return", tFalse, "locks held at return: "+strings.Join(sortedKeys(st.held), ","))
 	}
 	for i, c := range vc.fc.clauses("ensures") {
 		if c.Mode != "" && c.Mode != vc.mode {
@@ -871,6 +886,7 @@ func (st *State) step(in ssa.Instruction) {
 			st.nilCheck(tv.T, fmt.Sprintf("store#%d", vc.ordinals[in]), "*"+x.Addr.Name())
 		}
 		st.guardCheck(p, true, in, false)
+		st.fvWriteCheck(p, in)
 		st.store(p, st.value(x.Val))
 		vc.runGhostStore(st, p)
 	case *ssa.Extract:
